@@ -1,4 +1,839 @@
-import BipVerif.Model.Addr
+/-
+C09 — address encoders and decoders agree: for every format, whatever the encoder outputs for a
+public key is accepted by the decoder, which returns the format's payload (written out below);
+invalid key bytes (and the other documented parameter errors) are refused by the encoder with
+`ValueError`; and the decoders only ever raise `ValueError` (checksum errors are converted, no
+`IndexError` can escape — the C14 clause for address decoders).
+
+Property theorems only; proofs are in `BipVerif/Lemmas/Addr*.lean`.
+
+Reading guide.
+* `addrKey c pub = .ok k`: the key layer accepted `pub` and `k` is its canonical encoding
+  (33-byte SEC1-compressed for secp256k1 / nist256p1; `0x00 ‖ 32 bytes` for the ed25519 flavours,
+  so `k.drop 1` is the raw 32-byte key; bare 32 bytes for Monero).
+* `uncompressedOf .secp256k1 k = .ok u`: `u` is the 65-byte uncompressed form.
+* Hashes and curve arithmetic are opaque: only output lengths are used.
+* Key-layer hypothesis `KeyCanon c` ("canonical ECDSA keys re-validate") is explicit where a decoder
+  re-validates a secp256k1 key (EOS, Ergo); it is checked by differential testing, not proved.
+  For the ed25519 flavours the corresponding fact is proved (`addrKey_ed_inv`).
+* Parameter well-formedness: `ValidHrp hrp` for Bech32 HRPs; a Base58 alphabet is 58 distinct
+  symbols; one-byte version for Neo / CashAddr; `addrType < 256` for Stellar; `1 + netType < 256`
+  for Ergo; a Nimiq prefix without spaces.  Net-version / prefix bytes are arbitrary.
+-/
+import BipVerif.Lemmas.AddrBase58
+import BipVerif.Lemmas.AddrBech32
+import BipVerif.Lemmas.AddrEth
+import BipVerif.Lemmas.AddrBase32
+import BipVerif.Lemmas.AddrMisc
+import BipVerif.Lemmas.AddrEnc
+
 namespace BipVerif.Props.C09
-theorem placeholder : True := trivial
+open BipVerif BipVerif.Model BipVerif.Prim
+
+/-! ## Bitcoin family -/
+
+namespace P2pkh
+/-- payload: `hash160` of the compressed or the uncompressed key -/
+theorem decode_encode (netVer : Bytes) (alph : List Char) (hn : alph.Nodup) (hl : alph.length = 58)
+    (compressed : Bool) (pub : Bytes) (addr : List Char)
+    (h : p2pkhEncode netVer alph compressed pub = .ok addr) :
+    ∃ k kb, addrKey .secp256k1 pub = .ok k ∧
+      (if compressed then kb = k else uncompressedOf .secp256k1 k = .ok kb) ∧
+      p2pkhDecode netVer alph addr = .ok (hash160 kb) :=
+  p2pkh_decode_encode netVer alph hn hl compressed pub addr h
+
+theorem encode_error_kind (netVer : Bytes) (alph : List Char) (compressed : Bool) (pub : Bytes)
+    (e : Err) (h : p2pkhEncode netVer alph compressed pub = .error e) : e = .value :=
+  (p2pkhEncode_ov netVer alph compressed pub).h e h
+
+theorem decode_error_kind (netVer : Bytes) (alph addr : List Char) (e : Err)
+    (h : p2pkhDecode netVer alph addr = .error e) : e = .value :=
+  (p2pkhDecode_ov netVer alph addr).h e h
+end P2pkh
+
+namespace Xrp
+/-- Ripple = P2PKH over the Ripple alphabet, compressed key -/
+theorem decode_encode (netVer : Bytes) (pub : Bytes) (addr : List Char)
+    (h : p2pkhEncode netVer xrpAlphabet true pub = .ok addr) :
+    ∃ k, addrKey .secp256k1 pub = .ok k ∧ p2pkhDecode netVer xrpAlphabet addr = .ok (hash160 k) := by
+  obtain ⟨k, kb, hk, hkb, hd⟩ :=
+    p2pkh_decode_encode netVer xrpAlphabet xrpAlphabet_nodup xrpAlphabet_length true pub addr h
+  have hkb' : kb = k := by simpa using hkb
+  rw [hkb'] at hd
+  exact ⟨k, hk, hd⟩
+
+theorem encode_error_kind (netVer pub : Bytes) (e : Err)
+    (h : p2pkhEncode netVer xrpAlphabet true pub = .error e) : e = .value :=
+  (p2pkhEncode_ov netVer xrpAlphabet true pub).h e h
+
+theorem decode_error_kind (netVer : Bytes) (addr : List Char) (e : Err)
+    (h : p2pkhDecode netVer xrpAlphabet addr = .error e) : e = .value :=
+  (p2pkhDecode_ov netVer xrpAlphabet addr).h e h
+end Xrp
+
+namespace P2sh
+/-- payload: `hash160 (0x0014 ‖ hash160 k)`; decoded by the P2PKH decoder with the script net version -/
+theorem decode_encode (netVer pub : Bytes) (addr : List Char) (h : p2shEncode netVer pub = .ok addr) :
+    ∃ k, addrKey .secp256k1 pub = .ok k ∧
+      p2pkhDecode netVer btcAlphabet addr = .ok (p2shScriptHash k) :=
+  p2sh_decode_encode netVer pub addr h
+
+theorem encode_error_kind (netVer pub : Bytes) (e : Err) (h : p2shEncode netVer pub = .error e) :
+    e = .value := (p2shEncode_ov netVer pub).h e h
+
+theorem decode_error_kind (netVer : Bytes) (addr : List Char) (e : Err)
+    (h : p2pkhDecode netVer btcAlphabet addr = .error e) : e = .value :=
+  (p2pkhDecode_ov netVer btcAlphabet addr).h e h
+end P2sh
+
+namespace BchP2pkh
+theorem decode_encode (hrp : List Char) (hv : ValidHrp hrp) (netVer : UInt8) (pub : Bytes)
+    (addr : List Char) (h : bchP2pkhEncode hrp [netVer] pub = .ok addr) :
+    ∃ k, addrKey .secp256k1 pub = .ok k ∧ bchAddrDecode hrp [netVer] addr = .ok (hash160 k) :=
+  bchP2pkh_decode_encode hrp hv netVer pub addr h
+
+theorem encode_error_kind (hrp : List Char) (netVer pub : Bytes) (e : Err)
+    (h : bchP2pkhEncode hrp netVer pub = .error e) : e = .value :=
+  (bchP2pkhEncode_ov hrp netVer pub).h e h
+
+theorem decode_error_kind (hrp : List Char) (netVer : Bytes) (addr : List Char) (e : Err)
+    (h : bchAddrDecode hrp netVer addr = .error e) : e = .value :=
+  (bchAddrDecode_ov hrp netVer addr).h e h
+end BchP2pkh
+
+namespace BchP2sh
+theorem decode_encode (hrp : List Char) (hv : ValidHrp hrp) (netVer : UInt8) (pub : Bytes)
+    (addr : List Char) (h : bchP2shEncode hrp [netVer] pub = .ok addr) :
+    ∃ k, addrKey .secp256k1 pub = .ok k ∧ bchAddrDecode hrp [netVer] addr = .ok (p2shScriptHash k) :=
+  bchP2sh_decode_encode hrp hv netVer pub addr h
+
+theorem encode_error_kind (hrp : List Char) (netVer pub : Bytes) (e : Err)
+    (h : bchP2shEncode hrp netVer pub = .error e) : e = .value :=
+  (bchP2shEncode_ov hrp netVer pub).h e h
+
+theorem decode_error_kind (hrp : List Char) (netVer : Bytes) (addr : List Char) (e : Err)
+    (h : bchAddrDecode hrp netVer addr = .error e) : e = .value :=
+  (bchAddrDecode_ov hrp netVer addr).h e h
+end BchP2sh
+
+namespace P2wpkh
+theorem decode_encode (hrp : List Char) (hv : ValidHrp hrp) (pub : Bytes) (addr : List Char)
+    (h : p2wpkhEncode hrp pub = .ok addr) :
+    ∃ k, addrKey .secp256k1 pub = .ok k ∧ p2wpkhDecode hrp addr = .ok (hash160 k) :=
+  p2wpkh_decode_encode hrp hv pub addr h
+
+theorem encode_error_kind (hrp : List Char) (pub : Bytes) (e : Err)
+    (h : p2wpkhEncode hrp pub = .error e) : e = .value := (p2wpkhEncode_ov hrp pub).h e h
+
+/-- includes: `data[0]` of the SegWit decoder cannot raise `IndexError` -/
+theorem decode_error_kind (hrp addr : List Char) (e : Err)
+    (h : p2wpkhDecode hrp addr = .error e) : e = .value := (p2wpkhDecode_ov hrp addr).h e h
+end P2wpkh
+
+namespace P2tr
+/-- payload: the 32-byte x coordinate of the BIP-341 tweaked key (`p2trTweak k`) -/
+theorem decode_encode (hrp : List Char) (hv : ValidHrp hrp) (pub : Bytes) (addr : List Char)
+    (h : p2trEncode hrp pub = .ok addr) :
+    ∃ k t, addrKey .secp256k1 pub = .ok k ∧ p2trTweak k = .ok t ∧ t.length = 32 ∧
+      p2trDecode hrp addr = .ok t :=
+  p2tr_decode_encode hrp hv pub addr h
+
+/-- invalid keys — and a tweak landing on the point at infinity / an x that does not lift — are
+`ValueError` -/
+theorem encode_error_kind (hrp : List Char) (pub : Bytes) (e : Err)
+    (h : p2trEncode hrp pub = .error e) : e = .value := (p2trEncode_ov hrp pub).h e h
+
+theorem decode_error_kind (hrp addr : List Char) (e : Err)
+    (h : p2trDecode hrp addr = .error e) : e = .value := (p2trDecode_ov hrp addr).h e h
+end P2tr
+
+/-! ## Cosmos family -/
+
+namespace Atom
+theorem decode_encode (hrp : List Char) (hv : ValidHrp hrp) (pub : Bytes) (addr : List Char)
+    (h : atomEncode hrp pub = .ok addr) :
+    ∃ k, addrKey .secp256k1 pub = .ok k ∧ atomDecode hrp addr = .ok (hash160 k) :=
+  atom_decode_encode hrp hv pub addr h
+
+theorem encode_error_kind (hrp : List Char) (pub : Bytes) (e : Err)
+    (h : atomEncode hrp pub = .error e) : e = .value := (atomEncode_ov hrp pub).h e h
+
+theorem decode_error_kind (hrp addr : List Char) (e : Err)
+    (h : atomDecode hrp addr = .error e) : e = .value := (atomDecode_ov hrp addr).h e h
+end Atom
+
+namespace Avax
+/-- Avalanche P-chain / X-chain: `pfx` is `"P-"` / `"X-"` (any prefix text) -/
+theorem decode_encode (pfx hrp : List Char) (hv : ValidHrp hrp) (pub : Bytes) (addr : List Char)
+    (h : avaxEncode pfx hrp pub = .ok addr) :
+    ∃ k, addrKey .secp256k1 pub = .ok k ∧ avaxDecode pfx hrp addr = .ok (hash160 k) :=
+  avax_decode_encode pfx hrp hv pub addr h
+
+theorem encode_error_kind (pfx hrp : List Char) (pub : Bytes) (e : Err)
+    (h : avaxEncode pfx hrp pub = .error e) : e = .value := (avaxEncode_ov pfx hrp pub).h e h
+
+theorem decode_error_kind (pfx hrp addr : List Char) (e : Err)
+    (h : avaxDecode pfx hrp addr = .error e) : e = .value := (avaxDecode_ov pfx hrp addr).h e h
+end Avax
+
+namespace Zil
+/-- payload: the last 20 bytes of `sha256 k`; decoded by the Cosmos decoder -/
+theorem decode_encode (hrp : List Char) (hv : ValidHrp hrp) (pub : Bytes) (addr : List Char)
+    (h : zilEncode hrp pub = .ok addr) :
+    ∃ k, addrKey .secp256k1 pub = .ok k ∧ atomDecode hrp addr = .ok (takeLast (sha256 k) 20) :=
+  zil_decode_encode hrp hv pub addr h
+
+theorem encode_error_kind (hrp : List Char) (pub : Bytes) (e : Err)
+    (h : zilEncode hrp pub = .error e) : e = .value := (zilEncode_ov hrp pub).h e h
+
+theorem decode_error_kind (hrp addr : List Char) (e : Err)
+    (h : atomDecode hrp addr = .error e) : e = .value := (atomDecode_ov hrp addr).h e h
+end Zil
+
+namespace Egld
+/-- payload: the raw 32-byte ed25519 key -/
+theorem decode_encode (hrp : List Char) (hv : ValidHrp hrp) (pub : Bytes) (addr : List Char)
+    (h : egldEncode hrp pub = .ok addr) :
+    ∃ k, addrKey .ed25519 pub = .ok k ∧ egldDecode hrp addr = .ok (k.drop 1) :=
+  egld_decode_encode hrp hv pub addr h
+
+theorem encode_error_kind (hrp : List Char) (pub : Bytes) (e : Err)
+    (h : egldEncode hrp pub = .error e) : e = .value := (egldEncode_ov hrp pub).h e h
+
+theorem decode_error_kind (hrp addr : List Char) (e : Err)
+    (h : egldDecode hrp addr = .error e) : e = .value := (egldDecode_ov hrp addr).h e h
+end Egld
+
+/-! ## Ethereum family
+
+The payload is the 20 address bytes `b = keccak256(u[1:])[12:]`; `ethRaw k` is their lower-case
+hex text. -/
+
+namespace Eth
+/-- with or without EIP-55 checksum casing (`skipChk`, the same flag on both sides) -/
+theorem decode_encode (pfx : List Char) (skipChk : Bool) (pub : Bytes) (addr : List Char)
+    (h : ethEncode pfx skipChk pub = .ok addr) :
+    ∃ k u, addrKey .secp256k1 pub = .ok k ∧ uncompressedOf .secp256k1 k = .ok u ∧
+      ethRaw k = .ok (hexOfBytes ((keccak256 (u.drop 1)).drop 12)) ∧
+      ethDecode pfx skipChk addr = .ok ((keccak256 (u.drop 1)).drop 12) := by
+  obtain ⟨k, u, hk, hu, hd⟩ := eth_decode_encode pfx skipChk pub addr h
+  refine ⟨k, u, hk, hu, ?_, hd⟩
+  unfold ethRaw
+  rw [bind_ok_eq hu]
+  exact congrArg Except.ok (hexOfBytes_drop _ 12)
+
+/-- EIP-55 casing is idempotent on lower-case hex text (what makes the decoder accept the
+encoder's output) -/
+theorem checksum_idempotent (b : Bytes) :
+    ethChecksumEncode (ethChecksumEncode (hexOfBytes b)) = ethChecksumEncode (hexOfBytes b) :=
+  ethChecksumEncode_idem _ (hexOfBytes_lowerHex b)
+
+theorem encode_error_kind (pfx : List Char) (skipChk : Bool) (pub : Bytes) (e : Err)
+    (h : ethEncode pfx skipChk pub = .error e) : e = .value := (ethEncode_ov pfx skipChk pub).h e h
+
+theorem decode_error_kind (pfx : List Char) (skipChk : Bool) (addr : List Char) (e : Err)
+    (h : ethDecode pfx skipChk addr = .error e) : e = .value := (ethDecode_ov pfx skipChk addr).h e h
+end Eth
+
+namespace Trx
+theorem decode_encode (pfx pub : Bytes) (addr : List Char) (h : trxEncode pfx pub = .ok addr) :
+    ∃ k u, addrKey .secp256k1 pub = .ok k ∧ uncompressedOf .secp256k1 k = .ok u ∧
+      trxDecode pfx addr = .ok ((keccak256 (u.drop 1)).drop 12) :=
+  trx_decode_encode pfx pub addr h
+
+theorem encode_error_kind (pfx pub : Bytes) (e : Err) (h : trxEncode pfx pub = .error e) :
+    e = .value := (trxEncode_ov pfx pub).h e h
+
+theorem decode_error_kind (pfx : Bytes) (addr : List Char) (e : Err)
+    (h : trxDecode pfx addr = .error e) : e = .value := (trxDecode_ov pfx addr).h e h
+end Trx
+
+namespace EthBech32
+/-- OKEx Chain and Harmony One -/
+theorem decode_encode (hrp : List Char) (hv : ValidHrp hrp) (pub : Bytes) (addr : List Char)
+    (h : ethBech32Encode hrp pub = .ok addr) :
+    ∃ k u, addrKey .secp256k1 pub = .ok k ∧ uncompressedOf .secp256k1 k = .ok u ∧
+      ethBech32Decode hrp addr = .ok ((keccak256 (u.drop 1)).drop 12) :=
+  ethBech32_decode_encode hrp hv pub addr h
+
+theorem encode_error_kind (hrp : List Char) (pub : Bytes) (e : Err)
+    (h : ethBech32Encode hrp pub = .error e) : e = .value := (ethBech32Encode_ov hrp pub).h e h
+
+theorem decode_error_kind (hrp addr : List Char) (e : Err)
+    (h : ethBech32Decode hrp addr = .error e) : e = .value := (ethBech32Decode_ov hrp addr).h e h
+end EthBech32
+
+namespace Inj
+/-- Injective: same encoder, its own decoder -/
+theorem decode_encode (hrp : List Char) (hv : ValidHrp hrp) (pub : Bytes) (addr : List Char)
+    (h : ethBech32Encode hrp pub = .ok addr) :
+    ∃ k u, addrKey .secp256k1 pub = .ok k ∧ uncompressedOf .secp256k1 k = .ok u ∧
+      injDecode hrp addr = .ok ((keccak256 (u.drop 1)).drop 12) :=
+  inj_decode_encode hrp hv pub addr h
+
+theorem encode_error_kind (hrp : List Char) (pub : Bytes) (e : Err)
+    (h : ethBech32Encode hrp pub = .error e) : e = .value := (ethBech32Encode_ov hrp pub).h e h
+
+theorem decode_error_kind (hrp addr : List Char) (e : Err)
+    (h : injDecode hrp addr = .error e) : e = .value := (injDecode_ov hrp addr).h e h
+end Inj
+
+/-! ## hashed hex addresses -/
+
+namespace Icx
+theorem decode_encode (pfx : List Char) (pub : Bytes) (addr : List Char)
+    (h : icxEncode pfx pub = .ok addr) :
+    ∃ k u, addrKey .secp256k1 pub = .ok k ∧ uncompressedOf .secp256k1 k = .ok u ∧
+      icxDecode pfx addr = .ok (takeLast (sha3_256 (u.drop 1)) 20) :=
+  icx_decode_encode pfx pub addr h
+
+theorem encode_error_kind (pfx : List Char) (pub : Bytes) (e : Err)
+    (h : icxEncode pfx pub = .error e) : e = .value := (icxEncode_ov pfx pub).h e h
+
+theorem decode_error_kind (pfx addr : List Char) (e : Err)
+    (h : icxDecode pfx addr = .error e) : e = .value := (icxDecode_ov pfx addr).h e h
+end Icx
+
+namespace Sui
+theorem decode_encode (pfx : List Char) (pub : Bytes) (addr : List Char)
+    (h : suiEncode pfx pub = .ok addr) :
+    ∃ k, addrKey .ed25519 pub = .ok k ∧ suiDecode pfx addr = .ok (blake2b256 ([0] ++ k.drop 1)) :=
+  sui_decode_encode pfx pub addr h
+
+theorem encode_error_kind (pfx : List Char) (pub : Bytes) (e : Err)
+    (h : suiEncode pfx pub = .error e) : e = .value := (suiEncode_ov pfx pub).h e h
+
+theorem decode_error_kind (pfx addr : List Char) (e : Err)
+    (h : suiDecode pfx addr = .error e) : e = .value := (suiDecode_ov pfx addr).h e h
+end Sui
+
+namespace Aptos
+/-- with and without trimming of leading `0` characters: the decoder re-pads to 64 characters -/
+theorem decode_encode (pfx : List Char) (trim : Bool) (pub : Bytes) (addr : List Char)
+    (h : aptosEncode pfx trim pub = .ok addr) :
+    ∃ k, addrKey .ed25519 pub = .ok k ∧ aptosDecode pfx addr = .ok (sha3_256 (k.drop 1 ++ [0])) :=
+  aptos_decode_encode pfx trim pub addr h
+
+/-- the trimmed and the untrimmed spelling decode to the same bytes -/
+theorem decode_trimmed (pfx : List Char) (b : Bytes) (hb : b.length = 32) :
+    aptosDecode pfx (pfx ++ (hexOfBytes b).dropWhile (· == '0')) = .ok b ∧
+      aptosDecode pfx (pfx ++ hexOfBytes b) = .ok b :=
+  ⟨aptosDecode_canon pfx true b hb, aptosDecode_canon pfx false b hb⟩
+
+theorem encode_error_kind (pfx : List Char) (trim : Bool) (pub : Bytes) (e : Err)
+    (h : aptosEncode pfx trim pub = .error e) : e = .value := (aptosEncode_ov pfx trim pub).h e h
+
+theorem decode_error_kind (pfx addr : List Char) (e : Err)
+    (h : aptosDecode pfx addr = .error e) : e = .value := (aptosDecode_ov pfx addr).h e h
+end Aptos
+
+namespace Near
+theorem decode_encode (pub : Bytes) (addr : List Char) (h : nearEncode pub = .ok addr) :
+    ∃ k, addrKey .ed25519 pub = .ok k ∧ nearDecode addr = .ok (k.drop 1) :=
+  near_decode_encode pub addr h
+
+theorem encode_error_kind (pub : Bytes) (e : Err) (h : nearEncode pub = .error e) : e = .value :=
+  (nearEncode_ov pub).h e h
+
+theorem decode_error_kind (addr : List Char) (e : Err) (h : nearDecode addr = .error e) :
+    e = .value := (nearDecode_ov addr).h e h
+end Near
+
+/-! ## Base58 with own checksums -/
+
+namespace Eos
+/-- payload: the 33-byte compressed key (re-validated by the decoder: `KeyCanon`) -/
+theorem decode_encode (hK : KeyCanon .secp256k1) (pfx : List Char) (pub : Bytes) (addr : List Char)
+    (h : eosEncode pfx pub = .ok addr) :
+    ∃ k, addrKey .secp256k1 pub = .ok k ∧ eosDecode pfx addr = .ok k :=
+  eos_decode_encode hK pfx pub addr h
+
+theorem encode_error_kind (pfx : List Char) (pub : Bytes) (e : Err)
+    (h : eosEncode pfx pub = .error e) : e = .value := (eosEncode_ov pfx pub).h e h
+
+theorem decode_error_kind (pfx addr : List Char) (e : Err)
+    (h : eosDecode pfx addr = .error e) : e = .value := (eosDecode_ov pfx addr).h e h
+end Eos
+
+namespace Ergo
+theorem decode_encode (hK : KeyCanon .secp256k1) (netType : Nat) (hnt : 1 + netType < 256)
+    (pub : Bytes) (addr : List Char) (h : ergoEncode netType pub = .ok addr) :
+    ∃ k, addrKey .secp256k1 pub = .ok k ∧ ergoDecode netType addr = .ok k :=
+  ergo_decode_encode hK netType hnt pub addr h
+
+theorem encode_error_kind (netType : Nat) (pub : Bytes) (e : Err)
+    (h : ergoEncode netType pub = .error e) : e = .value := (ergoEncode_ov netType pub).h e h
+
+theorem decode_error_kind (netType : Nat) (addr : List Char) (e : Err)
+    (h : ergoDecode netType addr = .error e) : e = .value := (ergoDecode_ov netType addr).h e h
+end Ergo
+
+namespace Sol
+theorem decode_encode (pub : Bytes) (addr : List Char) (h : solEncode pub = .ok addr) :
+    ∃ k, addrKey .ed25519 pub = .ok k ∧ solDecode addr = .ok (k.drop 1) :=
+  sol_decode_encode pub addr h
+
+theorem encode_error_kind (pub : Bytes) (e : Err) (h : solEncode pub = .error e) : e = .value :=
+  (solEncode_ov pub).h e h
+
+theorem decode_error_kind (addr : List Char) (e : Err) (h : solDecode addr = .error e) :
+    e = .value := (solDecode_ov addr).h e h
+end Sol
+
+namespace Xtz
+theorem decode_encode (pfx pub : Bytes) (addr : List Char) (h : xtzEncode pfx pub = .ok addr) :
+    ∃ k, addrKey .ed25519 pub = .ok k ∧ xtzDecode pfx addr = .ok (blake2b160 (k.drop 1)) :=
+  xtz_decode_encode pfx pub addr h
+
+theorem encode_error_kind (pfx pub : Bytes) (e : Err) (h : xtzEncode pfx pub = .error e) :
+    e = .value := (xtzEncode_ov pfx pub).h e h
+
+theorem decode_error_kind (pfx : Bytes) (addr : List Char) (e : Err)
+    (h : xtzDecode pfx addr = .error e) : e = .value := (xtzDecode_ov pfx addr).h e h
+end Xtz
+
+namespace Neo
+/-- one-byte version; `pfx` / `sfx` are the script bytes around the key (Neo legacy / N3) -/
+theorem decode_encode (ver : UInt8) (pfx sfx pub : Bytes) (addr : List Char)
+    (h : neoEncode [ver] pfx sfx pub = .ok addr) :
+    ∃ k, addrKey .nist256p1 pub = .ok k ∧
+      neoDecode [ver] addr = .ok (hash160 (pfx ++ k ++ sfx)) :=
+  neo_decode_encode ver pfx sfx pub addr h
+
+theorem encode_error_kind (ver pfx sfx pub : Bytes) (e : Err)
+    (h : neoEncode ver pfx sfx pub = .error e) : e = .value := (neoEncode_ov ver pfx sfx pub).h e h
+
+/-- `dec[0]` is dominated by the length check: no `IndexError`, whatever `ver` is -/
+theorem decode_error_kind (ver : Bytes) (addr : List Char) (e : Err)
+    (h : neoDecode ver addr = .error e) : e = .value := (neoDecode_ov ver addr).h e h
+end Neo
+
+/-! ## Base32 family -/
+
+namespace Algo
+theorem decode_encode (pub : Bytes) (addr : List Char) (h : algoEncodeAddr pub = .ok addr) :
+    ∃ k, addrKey .ed25519 pub = .ok k ∧ algoDecodeAddr addr = .ok (k.drop 1) :=
+  algo_decode_encode pub addr h
+
+theorem encode_error_kind (pub : Bytes) (e : Err) (h : algoEncodeAddr pub = .error e) :
+    e = .value := (algoEncodeAddr_ov pub).h e h
+
+theorem decode_error_kind (addr : List Char) (e : Err) (h : algoDecodeAddr addr = .error e) :
+    e = .value := (algoDecodeAddr_ov addr).h e h
+end Algo
+
+namespace Xlm
+/-- `addrType` 48 (public key) / 144 (private key); any one-byte type -/
+theorem decode_encode (addrType : Nat) (ht : addrType < 256) (pub : Bytes) (addr : List Char)
+    (h : xlmEncode addrType pub = .ok addr) :
+    ∃ k, addrKey .ed25519 pub = .ok k ∧ xlmDecode addrType addr = .ok (k.drop 1) :=
+  xlm_decode_encode addrType ht pub addr h
+
+theorem encode_error_kind (addrType : Nat) (pub : Bytes) (e : Err)
+    (h : xlmEncode addrType pub = .error e) : e = .value := (xlmEncode_ov addrType pub).h e h
+
+/-- `payload[0]` is dominated by the length check: no `IndexError` -/
+theorem decode_error_kind (addrType : Nat) (addr : List Char) (e : Err)
+    (h : xlmDecode addrType addr = .error e) : e = .value := (xlmDecode_ov addrType addr).h e h
+end Xlm
+
+namespace Fil
+/-- payload: `blake2b160` of the uncompressed key -/
+theorem decode_encode (pfx : List Char) (pub : Bytes) (addr : List Char)
+    (h : filEncode pfx pub = .ok addr) :
+    ∃ k u, addrKey .secp256k1 pub = .ok k ∧ uncompressedOf .secp256k1 k = .ok u ∧
+      filDecode pfx addr = .ok (blake2b160 u) :=
+  fil_decode_encode pfx pub addr h
+
+theorem encode_error_kind (pfx : List Char) (pub : Bytes) (e : Err)
+    (h : filEncode pfx pub = .error e) : e = .value := (filEncode_ov pfx pub).h e h
+
+theorem decode_error_kind (pfx addr : List Char) (e : Err)
+    (h : filDecode pfx addr = .error e) : e = .value := (filDecode_ov pfx addr).h e h
+end Fil
+
+namespace Nano
+theorem decode_encode (pfx : List Char) (pub : Bytes) (addr : List Char)
+    (h : nanoEncode pfx pub = .ok addr) :
+    ∃ k, addrKey .ed25519Blake2b pub = .ok k ∧ nanoDecode pfx addr = .ok (k.drop 1) :=
+  nano_decode_encode pfx pub addr h
+
+theorem encode_error_kind (pfx : List Char) (pub : Bytes) (e : Err)
+    (h : nanoEncode pfx pub = .error e) : e = .value := (nanoEncode_ov pfx pub).h e h
+
+theorem decode_error_kind (pfx addr : List Char) (e : Err)
+    (h : nanoDecode pfx addr = .error e) : e = .value := (nanoDecode_ov pfx addr).h e h
+end Nano
+
+namespace Nim
+/-- payload: the first 20 bytes of `blake2b256` of the raw key.  `isDigitNonAscii` is the decoder's
+`str.isdigit` oracle for non-ASCII characters (arbitrary: it is never consulted on encoder output);
+the prefix (`"NQ"`) must not contain spaces, which the decoder strips. -/
+theorem decode_encode (isDigitNonAscii : Char → Bool) (pfx : List Char) (hp : ∀ c ∈ pfx, c ≠ ' ')
+    (pub : Bytes) (addr : List Char) (h : nimEncode pfx pub = .ok addr) :
+    ∃ k, addrKey .ed25519 pub = .ok k ∧
+      nimDecode isDigitNonAscii pfx addr = .ok ((blake2b256 (k.drop 1)).take 20) :=
+  nim_decode_encode isDigitNonAscii pfx hp pub addr h
+
+theorem encode_error_kind (pfx : List Char) (pub : Bytes) (e : Err)
+    (h : nimEncode pfx pub = .error e) : e = .value := (nimEncode_ov pfx pub).h e h
+
+theorem decode_error_kind (isDigitNonAscii : Char → Bool) (pfx addr : List Char) (e : Err)
+    (h : nimDecode isDigitNonAscii pfx addr = .error e) : e = .value :=
+  (nimDecode_ov isDigitNonAscii pfx addr).h e h
+end Nim
+
+/-! ## Substrate and Monero -/
+
+namespace SubstrateEd
+/-- no side condition on the SS58 format: a successful encoding certifies `fmt ≤ 16383`,
+`fmt ≠ 46, 47` -/
+theorem decode_encode (fmt : Nat) (pub : Bytes) (addr : List Char)
+    (h : substrateEdEncode fmt pub = .ok addr) :
+    ∃ k, addrKey .ed25519 pub = .ok k ∧ substrateEdDecode fmt addr = .ok (k.drop 1) :=
+  substrateEd_decode_encode fmt pub addr h
+
+/-- invalid key, format `> 16383`, reserved format 46 / 47: all `ValueError` -/
+theorem encode_error_kind (fmt : Nat) (pub : Bytes) (e : Err)
+    (h : substrateEdEncode fmt pub = .error e) : e = .value := (substrateEdEncode_ov fmt pub).h e h
+
+theorem decode_error_kind (fmt : Nat) (addr : List Char) (e : Err)
+    (h : substrateEdDecode fmt addr = .error e) : e = .value := (substrateEdDecode_ov fmt addr).h e h
+end SubstrateEd
+
+namespace Xmr
+/-- standard (`payId = none`) and integrated (`payId = some pid`) addresses; payload `s ‖ v`.
+A successful integrated encoding certifies the 8-byte payment id. -/
+theorem decode_encode (netVer : Bytes) (payId : Option Bytes) (spend view : Bytes)
+    (addr : List Char) (h : xmrAddrEncode netVer payId spend view = .ok addr) :
+    ∃ s v, addrKey .ed25519Monero spend = .ok s ∧ addrKey .ed25519Monero view = .ok v ∧
+      xmrAddrDecode netVer payId addr = .ok (s ++ v) :=
+  xmr_decode_encode_addr netVer payId spend view addr h
+
+/-- invalid keys and a payment id that is not 8 bytes long: `ValueError` -/
+theorem encode_error_kind (netVer : Bytes) (payId : Option Bytes) (spend view : Bytes) (e : Err)
+    (h : xmrAddrEncode netVer payId spend view = .error e) : e = .value :=
+  (xmrAddrEncode_ov netVer payId spend view).h e h
+
+theorem decode_error_kind (netVer : Bytes) (payId : Option Bytes) (addr : List Char) (e : Err)
+    (h : xmrAddrDecode netVer payId addr = .error e) : e = .value :=
+  (xmrAddrDecode_ov netVer payId addr).h e h
+end Xmr
+
+/-! ## key layer facts used above (proved) -/
+
+/-- ed25519 flavours: the canonical key is `0x00 ‖ k32`, and the bare 32-byte form re-validates -/
+theorem ed_key_canonical (c : CurveT) (hc : c.isEdPrefixed = true) (pub k : Bytes)
+    (h : addrKey c pub = .ok k) :
+    k.length = 33 ∧ (k.drop 1).length = 32 ∧ k = 0 :: k.drop 1 ∧
+      pubFromBytes c (k.drop 1) = some k ∧ pubValid c (k.drop 1) = true :=
+  addrKey_ed_inv hc h
+
+theorem monero_key_canonical (pub k : Bytes) (h : addrKey .ed25519Monero pub = .ok k) :
+    k.length = 32 ∧ pubFromBytes .ed25519Monero k = some k ∧ pubValid .ed25519Monero k = true :=
+  addrKey_monero_inv h
+
+theorem secp_key_length (pub k : Bytes) (h : addrKey .secp256k1 pub = .ok k) : k.length = 33 :=
+  addrKey_secp_length h
+
+/-! ## the encoder side, format by format
+
+`encode_invalid_key`: key bytes refused by the key layer are refused by the encoder with
+`ValueError`.  `encode_ok…`: on an accepted key the encoder succeeds and outputs the text written
+out in the statement (non-vacuity of the round trips above); decompression and the Taproot tweak
+are curve arithmetic and enter as hypotheses.  The remaining parameter errors (`encode_bad_…`)
+are `ValueError` as well.  (`ethAddrBytes u = (keccak256 (u.drop 1)).drop 12`.) -/
+
+section EncoderSide
+variable {pub k u : Bytes}
+
+theorem P2pkh.encode_invalid_key (nv : Bytes) (alph : List Char) (compressed : Bool) (pub : Bytes) (h : pubFromBytes .secp256k1 pub = none) :
+    p2pkhEncode nv alph compressed pub = .error .value :=
+  p2pkhEncode_invalid_key nv alph compressed pub h
+
+theorem P2sh.encode_invalid_key (nv : Bytes) (pub : Bytes) (h : pubFromBytes .secp256k1 pub = none) :
+    p2shEncode nv pub = .error .value :=
+  p2shEncode_invalid_key nv pub h
+
+theorem BchP2pkh.encode_invalid_key (hrp : List Char) (nv : Bytes) (pub : Bytes) (h : pubFromBytes .secp256k1 pub = none) :
+    bchP2pkhEncode hrp nv pub = .error .value :=
+  bchP2pkhEncode_invalid_key hrp nv pub h
+
+theorem BchP2sh.encode_invalid_key (hrp : List Char) (nv : Bytes) (pub : Bytes) (h : pubFromBytes .secp256k1 pub = none) :
+    bchP2shEncode hrp nv pub = .error .value :=
+  bchP2shEncode_invalid_key hrp nv pub h
+
+theorem P2wpkh.encode_invalid_key (hrp : List Char) (pub : Bytes) (h : pubFromBytes .secp256k1 pub = none) :
+    p2wpkhEncode hrp pub = .error .value :=
+  p2wpkhEncode_invalid_key hrp pub h
+
+theorem P2tr.encode_invalid_key (hrp : List Char) (pub : Bytes) (h : pubFromBytes .secp256k1 pub = none) :
+    p2trEncode hrp pub = .error .value :=
+  p2trEncode_invalid_key hrp pub h
+
+theorem Atom.encode_invalid_key (hrp : List Char) (pub : Bytes) (h : pubFromBytes .secp256k1 pub = none) :
+    atomEncode hrp pub = .error .value :=
+  atomEncode_invalid_key hrp pub h
+
+theorem Avax.encode_invalid_key (pfx hrp : List Char) (pub : Bytes) (h : pubFromBytes .secp256k1 pub = none) :
+    avaxEncode pfx hrp pub = .error .value :=
+  avaxEncode_invalid_key pfx hrp pub h
+
+theorem Eth.encode_invalid_key (pfx : List Char) (skipChk : Bool) (pub : Bytes) (h : pubFromBytes .secp256k1 pub = none) :
+    ethEncode pfx skipChk pub = .error .value :=
+  ethEncode_invalid_key pfx skipChk pub h
+
+theorem EthBech32.encode_invalid_key (hrp : List Char) (pub : Bytes) (h : pubFromBytes .secp256k1 pub = none) :
+    ethBech32Encode hrp pub = .error .value :=
+  ethBech32Encode_invalid_key hrp pub h
+
+theorem Trx.encode_invalid_key (pfx : Bytes) (pub : Bytes) (h : pubFromBytes .secp256k1 pub = none) :
+    trxEncode pfx pub = .error .value :=
+  trxEncode_invalid_key pfx pub h
+
+theorem Aptos.encode_invalid_key (pfx : List Char) (trim : Bool) (pub : Bytes) (h : pubFromBytes .ed25519 pub = none) :
+    aptosEncode pfx trim pub = .error .value :=
+  aptosEncode_invalid_key pfx trim pub h
+
+theorem Sui.encode_invalid_key (pfx : List Char) (pub : Bytes) (h : pubFromBytes .ed25519 pub = none) :
+    suiEncode pfx pub = .error .value :=
+  suiEncode_invalid_key pfx pub h
+
+theorem Icx.encode_invalid_key (pfx : List Char) (pub : Bytes) (h : pubFromBytes .secp256k1 pub = none) :
+    icxEncode pfx pub = .error .value :=
+  icxEncode_invalid_key pfx pub h
+
+theorem Near.encode_invalid_key (pub : Bytes) (h : pubFromBytes .ed25519 pub = none) :
+    nearEncode pub = .error .value :=
+  nearEncode_invalid_key pub h
+
+theorem Eos.encode_invalid_key (pfx : List Char) (pub : Bytes) (h : pubFromBytes .secp256k1 pub = none) :
+    eosEncode pfx pub = .error .value :=
+  eosEncode_invalid_key pfx pub h
+
+theorem Ergo.encode_invalid_key (netType : Nat) (pub : Bytes) (h : pubFromBytes .secp256k1 pub = none) :
+    ergoEncode netType pub = .error .value :=
+  ergoEncode_invalid_key netType pub h
+
+theorem Sol.encode_invalid_key (pub : Bytes) (h : pubFromBytes .ed25519 pub = none) :
+    solEncode pub = .error .value :=
+  solEncode_invalid_key pub h
+
+theorem Xtz.encode_invalid_key (pfx : Bytes) (pub : Bytes) (h : pubFromBytes .ed25519 pub = none) :
+    xtzEncode pfx pub = .error .value :=
+  xtzEncode_invalid_key pfx pub h
+
+theorem Neo.encode_invalid_key (ver pfx sfx : Bytes) (pub : Bytes) (h : pubFromBytes .nist256p1 pub = none) :
+    neoEncode ver pfx sfx pub = .error .value :=
+  neoEncode_invalid_key ver pfx sfx pub h
+
+theorem Algo.encode_invalid_key (pub : Bytes) (h : pubFromBytes .ed25519 pub = none) :
+    algoEncodeAddr pub = .error .value :=
+  algoEncodeAddr_invalid_key pub h
+
+theorem Xlm.encode_invalid_key (addrType : Nat) (pub : Bytes) (h : pubFromBytes .ed25519 pub = none) :
+    xlmEncode addrType pub = .error .value :=
+  xlmEncode_invalid_key addrType pub h
+
+theorem Fil.encode_invalid_key (pfx : List Char) (pub : Bytes) (h : pubFromBytes .secp256k1 pub = none) :
+    filEncode pfx pub = .error .value :=
+  filEncode_invalid_key pfx pub h
+
+theorem Nano.encode_invalid_key (pfx : List Char) (pub : Bytes) (h : pubFromBytes .ed25519Blake2b pub = none) :
+    nanoEncode pfx pub = .error .value :=
+  nanoEncode_invalid_key pfx pub h
+
+theorem Nim.encode_invalid_key (pfx : List Char) (pub : Bytes) (h : pubFromBytes .ed25519 pub = none) :
+    nimEncode pfx pub = .error .value :=
+  nimEncode_invalid_key pfx pub h
+
+theorem Egld.encode_invalid_key (hrp : List Char) (pub : Bytes) (h : pubFromBytes .ed25519 pub = none) :
+    egldEncode hrp pub = .error .value :=
+  egldEncode_invalid_key hrp pub h
+
+theorem Zil.encode_invalid_key (hrp : List Char) (pub : Bytes) (h : pubFromBytes .secp256k1 pub = none) :
+    zilEncode hrp pub = .error .value :=
+  zilEncode_invalid_key hrp pub h
+
+theorem SubstrateEd.encode_invalid_key (fmt : Nat) (pub : Bytes) (h : pubFromBytes .ed25519 pub = none) :
+    substrateEdEncode fmt pub = .error .value :=
+  substrateEdEncode_invalid_key fmt pub h
+
+theorem Xmr.encode_invalid_spend_key (netVer : Bytes) (payId : Option Bytes) (spend view : Bytes)
+    (h : pubFromBytes .ed25519Monero spend = none) :
+    xmrAddrEncode netVer payId spend view = .error .value :=
+  xmrAddrEncode_invalid_spend netVer payId spend view h
+
+theorem Xmr.encode_invalid_view_key (netVer : Bytes) (payId : Option Bytes) (spend view : Bytes)
+    (h : pubFromBytes .ed25519Monero view = none) :
+    xmrAddrEncode netVer payId spend view = .error .value :=
+  xmrAddrEncode_invalid_view netVer payId spend view h
+
+theorem Xmr.encode_bad_payment_id (netVer pid spend view : Bytes) (h : pid.length ≠ 8) :
+    xmrAddrEncode netVer (some pid) spend view = .error .value :=
+  xmrAddrEncode_bad_payment_id netVer pid spend view h
+
+theorem SubstrateEd.encode_bad_format (fmt : Nat) (pub : Bytes)
+    (h : fmt > 16383 ∨ fmt = 46 ∨ fmt = 47) :
+    substrateEdEncode fmt pub = .error .value :=
+  substrateEdEncode_bad_format fmt pub h
+
+theorem P2pkh.encode_ok (nv : Bytes) (alph : List Char) (hk : addrKey .secp256k1 pub = .ok k) :
+    p2pkhEncode nv alph true pub = .ok (b58CheckEncode sha256d alph (nv ++ hash160 k)) :=
+  p2pkhEncode_of_key nv alph hk
+
+theorem P2pkh.encode_ok_uncompressed (nv : Bytes) (alph : List Char)
+    (hk : addrKey .secp256k1 pub = .ok k) (hu : uncompressedOf .secp256k1 k = .ok u) :
+    p2pkhEncode nv alph false pub = .ok (b58CheckEncode sha256d alph (nv ++ hash160 u)) :=
+  p2pkhEncode_of_key_uncompressed nv alph hk hu
+
+theorem P2sh.encode_ok (nv : Bytes) (hk : addrKey .secp256k1 pub = .ok k) :
+    p2shEncode nv pub = .ok (b58CheckEncode sha256d btcAlphabet (nv ++ p2shScriptHash k)) :=
+  p2shEncode_of_key nv hk
+
+theorem BchP2pkh.encode_ok (hrp : List Char) (nv : Bytes) (hk : addrKey .secp256k1 pub = .ok k) :
+    bchP2pkhEncode hrp nv pub
+      = .ok (bechEncodeRaw .bch hrp (regroup 8 5 (bytesToNats (nv ++ hash160 k)))) :=
+  bchP2pkhEncode_of_key hrp nv hk
+
+theorem BchP2sh.encode_ok (hrp : List Char) (nv : Bytes) (hk : addrKey .secp256k1 pub = .ok k) :
+    bchP2shEncode hrp nv pub
+      = .ok (bechEncodeRaw .bch hrp (regroup 8 5 (bytesToNats (nv ++ p2shScriptHash k)))) :=
+  bchP2shEncode_of_key hrp nv hk
+
+theorem P2wpkh.encode_ok (hrp : List Char) (hk : addrKey .secp256k1 pub = .ok k) :
+    p2wpkhEncode hrp pub
+      = .ok (bechEncodeRaw .segwit hrp (0 :: regroup 8 5 (bytesToNats (hash160 k)))) :=
+  p2wpkhEncode_of_key hrp hk
+
+theorem P2tr.encode_ok (hrp : List Char) {t : Bytes} (hk : addrKey .secp256k1 pub = .ok k)
+    (ht : p2trTweak k = .ok t) :
+    p2trEncode hrp pub = .ok (bechEncodeRaw .segwit hrp (1 :: regroup 8 5 (bytesToNats t))) :=
+  p2trEncode_of_key hrp hk ht
+
+theorem Atom.encode_ok (hrp : List Char) (hk : addrKey .secp256k1 pub = .ok k) :
+    atomEncode hrp pub = .ok (bechEncodeRaw .bech32 hrp (regroup 8 5 (bytesToNats (hash160 k)))) :=
+  atomEncode_of_key hrp hk
+
+theorem Avax.encode_ok (pfx hrp : List Char) (hk : addrKey .secp256k1 pub = .ok k) :
+    avaxEncode pfx hrp pub
+      = .ok (pfx ++ bechEncodeRaw .bech32 hrp (regroup 8 5 (bytesToNats (hash160 k)))) :=
+  avaxEncode_of_key pfx hrp hk
+
+theorem Zil.encode_ok (hrp : List Char) (hk : addrKey .secp256k1 pub = .ok k) :
+    zilEncode hrp pub
+      = .ok (bechEncodeRaw .bech32 hrp (regroup 8 5 (bytesToNats (takeLast (sha256 k) 20)))) :=
+  zilEncode_of_key hrp hk
+
+theorem Egld.encode_ok (hrp : List Char) (hk : addrKey .ed25519 pub = .ok k) :
+    egldEncode hrp pub = .ok (bechEncodeRaw .bech32 hrp (regroup 8 5 (bytesToNats (k.drop 1)))) :=
+  egldEncode_of_key hrp hk
+
+theorem Eth.encode_ok (pfx : List Char) (skipChk : Bool) (hk : addrKey .secp256k1 pub = .ok k)
+    (hu : uncompressedOf .secp256k1 k = .ok u) :
+    ethEncode pfx skipChk pub = .ok (pfx ++ (if skipChk then hexOfBytes (ethAddrBytes u)
+      else ethChecksumEncode (hexOfBytes (ethAddrBytes u)))) :=
+  ethEncode_of_key pfx skipChk hk hu
+
+theorem Trx.encode_ok (pfx : Bytes) (hk : addrKey .secp256k1 pub = .ok k)
+    (hu : uncompressedOf .secp256k1 k = .ok u) :
+    trxEncode pfx pub = .ok (b58CheckEncode sha256d btcAlphabet (pfx ++ ethAddrBytes u)) :=
+  trxEncode_of_key pfx hk hu
+
+theorem EthBech32.encode_ok (hrp : List Char) (hk : addrKey .secp256k1 pub = .ok k)
+    (hu : uncompressedOf .secp256k1 k = .ok u) :
+    ethBech32Encode hrp pub
+      = .ok (bechEncodeRaw .bech32 hrp (regroup 8 5 (bytesToNats (ethAddrBytes u)))) :=
+  ethBech32Encode_of_key hrp hk hu
+
+theorem Icx.encode_ok (pfx : List Char) (hk : addrKey .secp256k1 pub = .ok k)
+    (hu : uncompressedOf .secp256k1 k = .ok u) :
+    icxEncode pfx pub = .ok (pfx ++ hexOfBytes (takeLast (sha3_256 (u.drop 1)) 20)) :=
+  icxEncode_of_key pfx hk hu
+
+theorem Fil.encode_ok (pfx : List Char) (hk : addrKey .secp256k1 pub = .ok k)
+    (hu : uncompressedOf .secp256k1 k = .ok u) :
+    filEncode pfx pub = .ok (pfx ++ ['1'] ++
+      base32EncodeNoPad (blake2b160 u ++ blake2b32 ([1] ++ blake2b160 u)) (some filAlphabet)) :=
+  filEncode_of_key pfx hk hu
+
+theorem Aptos.encode_ok (pfx : List Char) (trim : Bool) (hk : addrKey .ed25519 pub = .ok k) :
+    aptosEncode pfx trim pub = .ok (pfx ++ (if trim
+      then (hexOfBytes (sha3_256 (k.drop 1 ++ [0]))).dropWhile (· == '0')
+      else hexOfBytes (sha3_256 (k.drop 1 ++ [0])))) :=
+  aptosEncode_of_key pfx trim hk
+
+theorem Sui.encode_ok (pfx : List Char) (hk : addrKey .ed25519 pub = .ok k) :
+    suiEncode pfx pub = .ok (pfx ++ hexOfBytes (blake2b256 ([0] ++ k.drop 1))) :=
+  suiEncode_of_key pfx hk
+
+theorem Near.encode_ok (hk : addrKey .ed25519 pub = .ok k) :
+    nearEncode pub = .ok (hexOfBytes (k.drop 1)) :=
+  nearEncode_of_key hk
+
+theorem Eos.encode_ok (pfx : List Char) (hk : addrKey .secp256k1 pub = .ok k) :
+    eosEncode pfx pub = .ok (pfx ++ b58Encode btcAlphabet (k ++ (ripemd160 k).take 4)) :=
+  eosEncode_of_key pfx hk
+
+theorem Ergo.encode_ok (netType : Nat) (hk : addrKey .secp256k1 pub = .ok k) :
+    ergoEncode netType pub = .ok (b58Encode btcAlphabet ((toBytesAuto (1 + netType) ++ k) ++
+      (blake2b256 (toBytesAuto (1 + netType) ++ k)).take 4)) :=
+  ergoEncode_of_key netType hk
+
+theorem Sol.encode_ok (hk : addrKey .ed25519 pub = .ok k) :
+    solEncode pub = .ok (b58Encode btcAlphabet (k.drop 1)) :=
+  solEncode_of_key hk
+
+theorem Xtz.encode_ok (pfx : Bytes) (hk : addrKey .ed25519 pub = .ok k) :
+    xtzEncode pfx pub = .ok (b58CheckEncode sha256d btcAlphabet (pfx ++ blake2b160 (k.drop 1))) :=
+  xtzEncode_of_key pfx hk
+
+theorem Neo.encode_ok (ver pfx sfx : Bytes) (hk : addrKey .nist256p1 pub = .ok k) :
+    neoEncode ver pfx sfx pub
+      = .ok (b58CheckEncode sha256d btcAlphabet (ver ++ hash160 (pfx ++ k ++ sfx))) :=
+  neoEncode_of_key ver pfx sfx hk
+
+theorem Algo.encode_ok (hk : addrKey .ed25519 pub = .ok k) :
+    algoEncodeAddr pub
+      = .ok (base32EncodeNoPad (k.drop 1 ++ takeLast (sha512_256 (k.drop 1)) 4) none) :=
+  algoEncodeAddr_of_key hk
+
+theorem Xlm.encode_ok (addrType : Nat) (hk : addrKey .ed25519 pub = .ok k) :
+    xlmEncode addrType pub = .ok (base32EncodeNoPad ((toBytesAuto addrType ++ k.drop 1) ++
+      xlmCrc (toBytesAuto addrType ++ k.drop 1)) none) :=
+  xlmEncode_of_key addrType hk
+
+theorem Nano.encode_ok (pfx : List Char) (hk : addrKey .ed25519Blake2b pub = .ok k) :
+    nanoEncode pfx pub = .ok (pfx ++ (base32EncodeNoPad
+      ([0, 0, 0] ++ k.drop 1 ++ (blake2b40 (k.drop 1)).reverse) (some nanoAlphabet)).drop 4) :=
+  nanoEncode_of_key pfx hk
+
+theorem Nim.encode_ok (pfx : List Char) (hk : addrKey .ed25519 pub = .ok k) :
+    nimEncode pfx pub = .ok (
+      let enc := base32EncodeNoPad ((blake2b256 (k.drop 1)).take 20) (some nimAlphabet)
+      pfx ++ nimChecksum (fun _ => false) enc ++ [' '] ++
+        ((chunksOf 4 enc).intersperse [' ']).flatten) :=
+  nimEncode_of_key pfx hk
+
+theorem SubstrateEd.encode_ok (fmt : Nat) (hf : fmt ≤ 16383) (h46 : fmt ≠ 46) (h47 : fmt ≠ 47)
+    (hk : addrKey .ed25519 pub = .ok k) :
+    substrateEdEncode fmt pub = .ok (b58Encode btcAlphabet
+      ((ss58FormatBytes fmt ++ k.drop 1) ++ ss58Checksum blake2b512 (ss58FormatBytes fmt ++ k.drop 1))) :=
+  substrateEdEncode_of_key fmt hf h46 h47 hk
+
+theorem Xmr.encode_ok (netVer : Bytes) {spend view s v : Bytes}
+    (hs : addrKey .ed25519Monero spend = .ok s) (hv : addrKey .ed25519Monero view = .ok v) :
+    xmrAddrEncode netVer none spend view
+      = .ok (xmrEncode ((netVer ++ s ++ v ++ []) ++ (keccak256 (netVer ++ s ++ v ++ [])).take 4)) :=
+  xmrAddrEncode_of_keys netVer hs hv
+
+theorem Xmr.encode_ok_integrated (netVer pid : Bytes) (hp : pid.length = 8)
+    {spend view s v : Bytes}
+    (hs : addrKey .ed25519Monero spend = .ok s) (hv : addrKey .ed25519Monero view = .ok v) :
+    xmrAddrEncode netVer (some pid) spend view
+      = .ok (xmrEncode ((netVer ++ s ++ v ++ pid) ++ (keccak256 (netVer ++ s ++ v ++ pid)).take 4)) :=
+  xmrAddrEncode_of_keys_int netVer pid hp hs hv
+
+end EncoderSide
+
 end BipVerif.Props.C09
